@@ -32,3 +32,39 @@ pub fn routing_table_reset_id(table: &mut RoutingTable, id: Id) {
 pub fn routing_table_closest_secure(table: &RoutingTable, target: Id) -> Vec<Node> {
     table.closest_secure(target)
 }
+
+/// Public mirror of the crate-private `Message`.
+#[derive(Debug, Clone, PartialEq)]
+pub struct VMessage {
+    pub transaction_id: u32,
+    pub version: Option<[u8; 4]>,
+    pub requester_ip: Option<std::net::SocketAddrV4>,
+    pub message_type: MessageType,
+    pub read_only: bool,
+}
+
+/// `Message::to_bytes`.
+pub fn encode(m: &VMessage) -> Result<Vec<u8>, String> {
+    Message {
+        transaction_id: m.transaction_id,
+        version: m.version,
+        requester_ip: m.requester_ip,
+        message_type: m.message_type.clone(),
+        read_only: m.read_only,
+    }
+    .to_bytes()
+    .map_err(|e| e.to_string())
+}
+
+/// `Message::from_bytes`.
+pub fn decode(bytes: &[u8]) -> Result<VMessage, String> {
+    Message::from_bytes(bytes)
+        .map(|m| VMessage {
+            transaction_id: m.transaction_id,
+            version: m.version,
+            requester_ip: m.requester_ip,
+            message_type: m.message_type,
+            read_only: m.read_only,
+        })
+        .map_err(|e| e.to_string())
+}
